@@ -293,6 +293,37 @@ def run(ck, tier):
         if vd["drift"]:
             vlib.log("  [note] extension (DeBruijn.tla): %d of %d outputs differ from the specification (drift, no verdict)"
                      % (len(vd["drift"]), vd["events"]))
+        # extension (beyond C10): util.Wrapper, the line-wrapping and limiting io.Writer, as a state machine
+        for cfg, note in (("WrapperMC.cfg", "width 3, limit 7, <= 4 calls of <= 4 bytes: wrapped lines, prefix of the input, limit"),
+                          ("WrapperMC2.cfg", "width 2, no limit, underlying writer failing after 6 bytes")):
+            r = vlib.tlc("Util", "Wrapper", cfg, workers=2, timeout=600)
+            vlib.tlc_expect_ok(r, cfg)
+            ck.mc("%s (extension)" % cfg[:-4], r, note)
+        for cfg, inv, note in (("WrapperNegCount.cfg", "DocCount", "documented 'n <= len(p)' refuted: the count returned includes the line feeds inserted"),
+                               ("WrapperNegLimit.cfg", "LimitRespected", "width 0: the limit bounds each call, not the stream (the counter is not advanced): refuted")):
+            r = vlib.tlc("Util", "Wrapper", cfg, workers=2, timeout=600)
+            if r.violated != inv:
+                raise vlib.Infra("negative control %s not refuted: %s" % (cfg, r.violated))
+            ck.mc("%s (extension)" % cfg[:-4], r, note)
+        wp = os.path.join(work, "wrapper.ndjson")
+        vlib.harness(["wrapper", "-n", 20000 if thorough else 1500, "-seed", ck.seed, "-out", wp], cmd="vutil")
+        vw, r = vlib.validate("Util", "WrapperTrace", "WrapperTrace.cfg", wp, timeout=3000)
+        ck.mc("trace:wrapper (extension)", r, "%d histories of Write calls on util.Wrapper (12400 exhaustive small ones)" % vw["events"])
+        ck.extra["extension_events"] += vw["events"]
+        ck.extra["extension_drift"] += len(vw["drift"])
+        wrevs = vlib.read_ndjson(wp)
+        if vw["drift"]:
+            vlib.log("  [note] extension (Wrapper.tla): %d of %d histories differ from the specification (drift, no verdict); first: %s"
+                     % (len(vw["drift"]), vw["events"], json.dumps(wrevs[vw["drift"][0] - 1])[:400]))
+        else:
+            # binding: a history with one output byte changed must be noticed
+            bad = json.loads(json.dumps(next(e for e in wrevs if len(e["out"]) > 2)))
+            bad["out"][1] += 1
+            bp = os.path.join(work, "wrapper-bad.ndjson")
+            vlib.write_ndjson(bp, [bad])
+            vb, r = vlib.validate("Util", "WrapperTrace", "WrapperTrace.cfg", bp, timeout=600)
+            if not vb["drift"]:
+                raise vlib.Infra("Wrapper trace specification accepts a corrupted history")
         ck.nontrivial = len(judge.keys)
         ck.extra["emitted_cases_total"] = total
         ck.extra["emitted_cases_replayed"] = len(cevs)
